@@ -256,6 +256,26 @@ Section Codec4.
     forallb (fun f => let n := count_text (f_name f) freq in
                       (f_min f <=? n) && match f_max f with Some m => n <=? m | None => true end) fields.
 
+  (** a child element named like an XmlAttribute member: from_element is called with the
+      XmlAttribute wrapper class, whose handler is base_from_element and whose text reader is
+      xmlattribute_from_bytes -> from_bytes(cls.type, text); the wrapper's own Attributes are
+      the defaults (nillable).  An xsi:type on such an element is refused (no registered class
+      is a subclass of the wrapper; the generator never names the wrapper itself). *)
+  Definition attr_elem (f : field) (e : xn) : out val :=
+    match e with
+    | XO => Crash AttributeError
+    | XE _ _ _ atts txt _ =>
+        if is_nil atts then Ok VNone
+        else if x4_parse C && match lookup_att xsi_ns t_type atts with Some _ => true | None => false end then VFault
+        else match f_ty f with
+             | TPrim p => match txt with
+                          | None => Ok VNone
+                          | Some s => do v <- lc_rd L p s; Ok (VLeaf v)
+                          end
+             | _ => Crash TypeError
+             end
+    end.
+
   (** the deserialisation handler of the (possibly retagged) class *)
   Definition body4 (rec : ty -> bool -> xn -> out val) (t : ty) (nillable : bool)
              (atts : list attr) (txt : option text) (kids : list xn) : out val :=
@@ -277,7 +297,7 @@ Section Codec4.
         | None => Crash KeyError
         | Some ffs =>
             let fields := map snd ffs in
-            do r1 <- kids4 (fun f => rec (f_ty f) (f_nillable f)) fields kids [] [];
+            do r1 <- kids4 (fun f => match f_kind f with KElem => rec (f_ty f) (f_nillable f) | KAttr => attr_elem f end) fields kids [] [];
             do r2 <- own_atts fields atts (fst r1) (snd r1);
             if x4_soft C && negb (freq_ok4 fields (snd r2)) then VFault
             else Ok (VObj c (map (fun f => getattr (fst r2) (f_name f)) fields))
